@@ -48,4 +48,110 @@ theorem supported_accepted (e : PyExpr) (h : Supported e) : ∃ toks, genE e = s
   have hok : genOk e = true := wf_genOk e h.1
   exact ⟨gen e, by simp [genE, hok], parse_gen e h⟩
 
+/-- **Unsupported constructs are rejected, not altered.**  If anywhere in the tree there is a node
+    class without a `visit_*` method in the code under test, or an operator that is missing from
+    the generator's operator table, the generator raises (`genE = none`): it never produces
+    different tokens for such a tree. -/
+theorem unsupported_rejected (e : PyExpr) (h : rejects e = true) : genE e = none := by
+  have : genOk e = false := by
+    cases hg : genOk e with
+    | false => rfl
+    | true => simp [genOk_not_rejects e hg] at h
+  simp [genE, this]
+
+/-- **No field is dropped.**  Every node of a supported tree (with all its fields: operands,
+    parameters with their defaults, keywords, comprehension clauses and conditions, slice parts,
+    literals) is present again in what the regenerated source parses to. -/
+theorem no_field_dropped (e : PyExpr) (h : Supported e) : (pyParse (gen e)).map subterms = some (subterms e) := by
+  rw [parse_gen e h]; rfl
+
+/-! ### the generated tables -/
+
+/-- the grammar facts the parser hard-codes, as probed on the running CPython -/
+theorem grammar_facts :
+    Astgrammar.powRightAssoc = true ∧ Astgrammar.powTighterThanUnaryLeft = true ∧ Astgrammar.powRightOperandUnary = true
+    ∧ Astgrammar.unaryTighterThanBin = true ∧ Astgrammar.powTighterThanBin = true ∧ Astgrammar.binTighterThanCompare = true
+    ∧ Astgrammar.compareChains = true ∧ Astgrammar.notLooserThanCompare = true ∧ Astgrammar.notTighterThanAnd = true
+    ∧ Astgrammar.andTighterThanOr = true ∧ Astgrammar.boolOpsFlatten = true ∧ Astgrammar.ifExpLoosest = true
+    ∧ Astgrammar.ifExpRightNested = true ∧ Astgrammar.lambdaBodyExtends = true := by decide
+
+/-- the operator tables of the generator agree with the grammar of the running CPython: every
+    class is written as the text that CPython reads back as that class -/
+theorem tables_agree :
+    (∀ p ∈ AstGen.binaryOperators,
+      symToks p.2 = [Tok.op p.2] ∧ stopsTrailer [Tok.op p.2] = true ∧
+      ((p.2 = ['*', '*'] ∧ p.1 = cs!"Pow") ∨
+       (p.2 ≠ ['*', '*'] ∧ (binLevel? p.2 Astgrammar.binLevels).map (·.1) = some p.1)))
+    ∧ (∀ p ∈ AstGen.unaryOperators,
+      (p.1 = cs!"Not" ∧ symToks p.2 = [Tok.name cs!"not"]) ∨
+      (p.1 ≠ cs!"Not" ∧ symToks p.2 = [Tok.op p.2] ∧ unarySym? p.2 Astgrammar.unaryOps = some p.1))
+    ∧ (opToks AstGen.boolOperators cs!"And" = [kw cs!"and"] ∧ opToks AstGen.boolOperators cs!"Or" = [kw cs!"or"])
+    ∧ (∀ p ∈ AstGen.comparisonOperators, cmpFind (splitBlank p.2) Astgrammar.cmpOps = some p.1) :=
+  ⟨binTable_ok, unTable_ok, boolTable_ok, cmp_words_ok⟩
+
+/-- every operator-like visitor of the code under test parenthesises what it writes (the
+    hypothesis without which `parse_gen` is false: `(-2) ** 2`, `(not a) == b`, `(yield y) + 1`) -/
+theorem operators_parenthesised :
+    parenthesised cs!"BoolOp" = true ∧ parenthesised cs!"BinOp" = true ∧ parenthesised cs!"UnaryOp" = true
+    ∧ parenthesised cs!"Lambda" = true ∧ parenthesised cs!"IfExp" = true ∧ parenthesised cs!"Yield" = true
+    ∧ parenthesised cs!"Compare" = true := parens_all
+
+/-! ### non-vacuity and the boundary of the hypothesis -/
+
+def two : PyExpr := .const ⟨.int, ['2']⟩
+/-- `(-2) ** 2` -/
+def exUnaryPow : PyExpr := .binOp (.unaryOp cs!"USub" two) cs!"Pow" two
+/-- `f(a, *b, k=(not x) == y)[1:]` -/
+def exCall : PyExpr :=
+  .subscript
+    (.call (.name ['f']) [.name ['a'], .starred (.name ['b'])]
+      [.keyword (some ['k']) (.compare (.unaryOp cs!"Not" (.name ['x'])) [.cmpRhs cs!"Eq" (.name ['y'])])])
+    (.slice (some (.const ⟨.int, ['1']⟩)) none none)
+/-- `lambda p, /, q=2, *r, s, **t: [i for i in q if i]` -/
+def exLambda : PyExpr :=
+  .lambda [.param ['p'] none none] [.param ['q'] none (some two)] (some (.param ['r'] none none))
+    [.param ['s'] none none] (some (.param ['t'] none none))
+    (.listComp (.name ['i']) [.comp (.name ['i']) (.name ['q']) [.name ['i']] false])
+
+theorem two_ok : ConstOK ⟨.int, ['2']⟩ := by
+  refine ⟨by decide, by decide, trivial⟩
+
+example : Supported exUnaryPow := by
+  refine ⟨?_, rfl⟩
+  simp only [exUnaryPow, two, WF]
+  exact ⟨by decide, ⟨by decide, two_ok, rfl⟩, two_ok, rfl, rfl⟩
+
+example : pyParse (gen exUnaryPow) = some exUnaryPow := rfl
+example : pyParse (gen exCall) = some exCall := rfl
+example : pyParse (gen exLambda) = some exLambda := rfl
+example : genE (.binOp (.name ['a']) cs!"MatMult" (.name ['b'])) = none :=
+  unsupported_rejected _ (by decide)
+example : genE (.list [.unsupported cs!"Set"]) = none := unsupported_rejected _ (by decide)
+
+/-- Outside the hypothesis (an attribute of an integer literal, `(1).real`): the regenerated
+    text `1.real` is not Python — the program is *rejected*, not altered. -/
+theorem int_attribute_rejected : pyParse (gen (.attribute (.const ⟨.int, ['1']⟩) cs!"real")) = none := rfl
+
+/-- Outside the hypothesis (`{**d}`): regenerated as `{: d, }`, which is rejected. -/
+theorem dict_unpack_rejected : pyParse (gen (.dict [.dictItem none (.name ['d'])])) = none := rfl
+
+/-- `parse_gen` needs its hypothesis: for these trees `pyParse (gen e) ≠ some e` (they are rejected). -/
+theorem parse_gen_needs_support :
+    pyParse (gen (.attribute (.const ⟨.int, ['1']⟩) cs!"real")) ≠ some (.attribute (.const ⟨.int, ['1']⟩) cs!"real")
+    ∧ pyParse (gen (.dict [.dictItem none (.name ['d'])])) ≠ some (.dict [.dictItem none (.name ['d'])]) := by
+  rw [int_attribute_rejected, dict_unpack_rejected]
+  exact ⟨nofun, nofun⟩
+
+/-- **Known finding C13-type-params (witness).**  A PEP 695 type parameter list is silently
+    dropped: `def f[T](): pass` and `def f(): pass` are regenerated as the same lines although
+    they are different programs, so regeneration is not faithful on trees with `typeParams`. -/
+theorem type_params_dropped_witness :
+    genStmt 0 (.functionDef ['f'] [] [] none [] none [.pass_] [] none true)
+      = genStmt 0 (.functionDef ['f'] [] [] none [] none [.pass_] [] none false)
+    ∧ genModule [.functionDef ['f'] [] [] none [] none [.pass_] [] none true]
+      = some [⟨0, [kw cs!"def", .name ['f'], tLP, tRP, tColon]⟩, ⟨1, [kw cs!"pass"]⟩] := by
+  constructor
+  · rfl
+  · decide
+
 end Genshi.Props.C13
